@@ -284,7 +284,7 @@ func c01Priority(c *Ctx, s *scanShape) {
 	r.Check("C01.3", "dir-loop", dirLoop.Complete, c.pos(dirLoop.Header.Instrs[len(dirLoop.Header.Instrs)-1]), "directories are scanned by a complete ascending loop (lowest priority first)")
 	isIndex := func(v ssa.Value) bool {
 		for _, p := range c.U.PathsOf(v) {
-			if p.Root != dirLoop.Index || len(p.Sels) != 0 {
+			if !dirLoop.IsIndex(p.Root) || len(p.Sels) != 0 {
 				return false
 			}
 		}
